@@ -50,3 +50,360 @@ Proof.
     + exact Hans.
     + destruct v; [split; [discriminate | apply Hstuck] | discriminate].
 Qed.
+
+(* steps that leave the entries alone *)
+Lemma inv_same_entries v s s' :
+  Inv v s -> entries s' = entries s -> idmap s' = idmap s -> gauge s' = gauge s -> bridges s' = bridges s ->
+  (next_cid s <= next_cid s')%nat ->
+  (forall x, In x (answer_log s) -> In x (answer_log s')) ->
+  (forall cid n fp o r, In (cid, n, fp, o, r) (done_clients s') -> (cid < next_cid s')%nat) ->
+  Inv v s'.
+Proof.
+  intros [Ie Ii Ig Ipo Ic Id] He Hi Hg Hb Hn Hl Hd. constructor.
+  - intros p e Hp. rewrite He in Hp. rewrite Hb. eapply entry_ok_mono; [exact Hn | apply (Ie p e Hp)].
+  - intros sd p Hin. rewrite Hi in Hin. rewrite He. apply Ii. exact Hin.
+  - rewrite Hg, He. exact Ig.
+  - intros p e a Hp Ha. rewrite He in Hp. destruct (Ipo p e a Hp Ha) as [aid H]. exists aid. apply Hl. exact H.
+  - rewrite He. exact Ic.
+  - exact Hd.
+Qed.
+
+Lemma eligible_inheap n e : eligible n e = true -> e_inheap e = true /\ compat n (e_nat e) = true.
+Proof. unfold eligible, compat. intros H. apply andb_prop in H. exact H. Qed.
+
+Lemma step_Client v s n fp o ch s' : Inv v s -> step v s (L_Client n fp o ch) = Some s' -> Inv v s'.
+Proof.
+  intros I H. cbn [step] in H.
+  assert (Fin : forall r s1,
+    s1 = {| entries := entries s; idmap := idmap s; gauge := gauge s; bridges := bridges s;
+            next_cid := S (next_cid s); next_aid := next_aid s;
+            done_clients := (next_cid s, n, fp, o, r) :: done_clients s; done_answers := done_answers s;
+            answer_log := answer_log s |} -> Inv v s1).
+  { intros r s1 ->. apply (inv_same_entries v s); cbn; try reflexivity; auto.
+    intros cid n0 fp0 o0 r0 [Hx|Hx].
+    - injection Hx as <- _ _ _ _. lia.
+    - apply (inv_done_cids v s I) in Hx. lia. }
+  destruct (lookup fp (bridges s)) as [u|] eqn:Hfp.
+  - destruct ch as [p|].
+    + destruct (nth_error (entries s) p) as [e|] eqn:Hp; [|discriminate].
+      destruct (eligible n e && is_min n (entries s) e) eqn:Hel; [|discriminate].
+      injection H as <-. apply andb_prop in Hel. destruct Hel as [Hel _].
+      destruct (eligible_inheap n e Hel) as [Hh Hcompat].
+      pose proof (inv_entries v s I p e Hp) as Hok. unpack_ok Hok.
+      destruct (shape_inheap e Hshape Hh) as [Hcl [Hlive Hw]].
+      set (c := {| c_id := next_cid s; c_nat := n; c_fp := fp; c_offer := o; c_pc := C_Send; c_fired := false |}).
+      eapply (inv_step_upd v s _ p e (fun e => set_cl (Some c) (set_heap_live false (e_live e) e)) I Hp);
+        cbn; try reflexivity; try lia; auto.
+      * ok_split; unfold_ok; cbn; rewrite ?Hcl, ?Hlive in *.
+        -- destruct (e_w e) as [| | | |m|[|m]]; try discriminate; reflexivity.
+        -- intros m Hm. destruct (e_w e) as [| | | |m'|[|m']]; try discriminate; destruct Hm; discriminate.
+        -- intros c0 Hc0. injection Hc0 as <-. cbn. split; [exact Hcompat|]. split; [congruence | lia].
+        -- destruct Hans as [A [B C]]. split; [exact A|]. split; [exact B|].
+           intros c0 a Hc0 [Hx|Hx]; injection Hc0 as <-; discriminate.
+        -- exact Hstuck.
+      * unfold live_z. cbn. lia.
+      * intros c' Hc'. injection Hc' as <-. right. split; [exact Hcl | cbn; lia].
+    + destruct (pool_empty n (entries s)); [|discriminate]. injection H as <-. eapply Fin. reflexivity.
+  - destruct ch as [p|]; [discriminate|]. injection H as <-. eapply Fin. reflexivity.
+Qed.
+
+Lemma shape_client_send e c : shape_ok e = true -> e_cl e = Some c -> c_pc c = C_Send ->
+  e_inheap e = false /\ e_live e = true /\ w_before_offer (e_w e) = true.
+Proof.
+  unfold shape_ok. intros H Hc Hpc. rewrite Hc, Hpc in H. bool_crush. repeat split; assumption.
+Qed.
+
+Lemma shape_client_wait e c : shape_ok e = true -> e_cl e = Some c ->
+  (c_pc c = C_Wait \/ exists r, c_pc c = C_Cleanup r) ->
+  e_inheap e = false /\ e_live e = true /\ w_after_offer (e_w e) = true.
+Proof.
+  unfold shape_ok. intros H Hc Hpc. rewrite Hc in H.
+  destruct Hpc as [Hpc|[r Hpc]]; rewrite Hpc in H; bool_crush; repeat split; assumption.
+Qed.
+
+Lemma step_RvOffer v s p s' : Inv v s -> step v s (L_RvOffer p) = Some s' -> Inv v s'.
+Proof.
+  intros I H. cbn [step] in H.
+  destruct (nth_error (entries s) p) as [e|] eqn:Hp; [|discriminate].
+  destruct (e_cl e) as [c|] eqn:Hc; [|discriminate].
+  destruct (c_pc c) eqn:Hpc; try discriminate.
+  destruct (match e_w e with W_Select | W_Late => true | _ => false end) eqn:Hw; [|discriminate].
+  destruct (lookup (c_fp c) (bridges s)) as [u|] eqn:Hfp; [|discriminate].
+  injection H as <-.
+  pose proof (inv_entries v s I p e Hp) as Hok. unpack_ok Hok.
+  destruct (shape_client_send e c Hshape Hc Hpc) as [Hh [Hlive _]].
+  set (m := {| m_offer := c_offer c; m_nat := c_nat c; m_url := u |}).
+  apply (inv_step_simple v s p e (fun e => set_w (W_Forward m) (set_cl (Some (set_cpc C_Wait c)) e)) I Hp); cbn; auto.
+  - ok_split; unfold_ok; cbn; rewrite ?Hc, ?Hh, ?Hlive in *.
+    + reflexivity.
+    + intros m' [Hm|Hm]; [|discriminate]. injection Hm as <-.
+      exists (set_cpc C_Wait c). cbn. repeat split; try reflexivity. exact Hfp.
+    + intros c0 Hc0. injection Hc0 as <-. cbn. apply Hclient; first [reflexivity | exact Hc].
+    + destruct Hans as [A [B C]]. split; [exact A|]. split; [exact B|].
+      intros c0 a Hc0 [Hx|Hx]; injection Hc0 as <-; discriminate.
+    + destruct v; [split; [discriminate | apply Hstuck] | discriminate].
+  - intros c' Hc'. injection Hc' as <-. exists c. split; [exact Hc | reflexivity].
+Qed.
+
+Lemma step_RvForward v s p s' : Inv v s -> step v s (L_RvForward p) = Some s' -> Inv v s'.
+Proof.
+  intros I H. cbn [step] in H.
+  destruct (nth_error (entries s) p) as [e|] eqn:Hp; [|discriminate].
+  destruct (e_w e) as [| | | |m|r] eqn:Ew; try discriminate.
+  injection H as <-.
+  pose proof (inv_entries v s I p e Hp) as Hok. unpack_ok Hok.
+  apply (inv_step_simple v s p e (set_w (W_Done (PMatch m))) I Hp); cbn; auto; [|same_client].
+  ok_split; unfold_ok; cbn; rewrite ?Ew in *.
+  - destruct (e_cl e) as [c|]; [|discriminate]. destruct (c_pc c); cbn in *; exact Hshape.
+  - intros m' [Hm|Hm]; [discriminate|]. injection Hm as <-. apply Hminfo. left. reflexivity.
+  - exact Hclient.
+  - exact Hans.
+  - destruct v; [split; [discriminate | apply Hstuck] | discriminate].
+Qed.
+
+Lemma step_FireC v s p s' : Inv v s -> step v s (L_FireC p) = Some s' -> Inv v s'.
+Proof.
+  intros I H. cbn [step] in H.
+  destruct (nth_error (entries s) p) as [e|] eqn:Hp; [|discriminate].
+  destruct (e_cl e) as [c|] eqn:Hc; [|discriminate].
+  destruct (c_pc c) eqn:Hpc; try discriminate. destruct (c_fired c); [discriminate|].
+  injection H as <-.
+  pose proof (inv_entries v s I p e Hp) as Hok. unpack_ok Hok.
+  apply (inv_step_simple v s p e (set_cl (Some (set_cfired c))) I Hp); cbn; auto.
+  - ok_split; unfold_ok; cbn; rewrite ?Hc, ?Hpc in *.
+    + exact Hshape.
+    + intros m Hm. destruct (Hminfo m Hm) as [c0 [Hc0 [A [B C]]]]. injection Hc0 as <-.
+      exists (set_cfired c). cbn. repeat split; assumption.
+    + intros c0 Hc0. injection Hc0 as <-. cbn. apply Hclient; first [reflexivity | exact Hc].
+    + destruct Hans as [A [B C]]. split; [exact A|]. split; [exact B|].
+      intros c0 a Hc0 Hx. injection Hc0 as <-. cbn in Hx. eapply C; [first [reflexivity | exact Hc] | exact Hx].
+    + exact Hstuck.
+  - intros c' Hc'. injection Hc' as <-. exists c. split; [exact Hc | reflexivity].
+Qed.
+
+Lemma step_CTake v s p s' : Inv v s -> step v s (L_CTake p) = Some s' -> Inv v s'.
+Proof.
+  intros I H. cbn [step] in H.
+  destruct (nth_error (entries s) p) as [e|] eqn:Hp; [|discriminate].
+  destruct (e_cl e) as [c|] eqn:Hc; [|discriminate].
+  destruct (c_pc c) eqn:Hpc; try discriminate. destruct (c_fired c); [|discriminate].
+  injection H as <-.
+  pose proof (inv_entries v s I p e Hp) as Hok. unpack_ok Hok.
+  apply (inv_step_simple v s p e (set_cl (Some (set_cpc (C_Cleanup CTimedOut) c))) I Hp); cbn; auto.
+  - ok_split; unfold_ok; cbn; rewrite ?Hc, ?Hpc in *.
+    + exact Hshape.
+    + intros m Hm. destruct (Hminfo m Hm) as [c0 [Hc0 [A [B C]]]]. injection Hc0 as <-.
+      exists (set_cpc (C_Cleanup CTimedOut) c). cbn. repeat split; assumption.
+    + intros c0 Hc0. injection Hc0 as <-. cbn. apply Hclient; first [reflexivity | exact Hc].
+    + destruct Hans as [A [B C]]. split; [exact A|]. split; [exact B|].
+      intros c0 a Hc0 [Hx|Hx]; injection Hc0 as <-; discriminate.
+    + exact Hstuck.
+  - intros c' Hc'. injection Hc' as <-. exists c. split; [exact Hc | reflexivity].
+Qed.
+
+Lemma step_CCleanup v s p s' : Inv v s -> step v s (L_CCleanup p) = Some s' -> Inv v s'.
+Proof.
+  intros I H. cbn [step] in H.
+  destruct (nth_error (entries s) p) as [e|] eqn:Hp; [|discriminate].
+  destruct (e_cl e) as [c|] eqn:Hc; [|discriminate].
+  destruct (c_pc c) eqn:Hpc; try discriminate.
+  injection H as <-.
+  pose proof (inv_entries v s I p e Hp) as Hok. unpack_ok Hok.
+  destruct (shape_client_wait e c Hshape Hc (or_intror (ex_intro _ r Hpc))) as [Hh [Hlive Hw]].
+  eapply (inv_step_upd v s _ p e (fun e => set_cl (Some (set_cpc (C_Done r) c)) (set_heap_live (e_inheap e) false e)) I Hp);
+    cbn; try reflexivity; try lia; auto.
+  - ok_split; unfold_ok; cbn; rewrite ?Hc, ?Hpc, ?Hh in *.
+    + cbn. exact Hw.
+    + intros m Hm. destruct (Hminfo m Hm) as [c0 [Hc0 [A [B C]]]]. injection Hc0 as <-.
+      exists (set_cpc (C_Done r) c). cbn. repeat split; assumption.
+    + intros c0 Hc0. injection Hc0 as <-. cbn. apply Hclient; first [reflexivity | exact Hc].
+    + destruct Hans as [A [B C]]. split; [exact A|]. split; [exact B|].
+      intros c0 a Hc0 [Hx|Hx]; injection Hc0 as <-; cbn in Hx; [discriminate|].
+      injection Hx as ->. eapply C; [first [reflexivity | exact Hc] | left; exact Hpc].
+    + exact Hstuck.
+  - intros sd q Hin. destruct (idmap_after_remove v s p e I Hp sd q Hin) as [A B].
+    split; [exact A | intros Hq; destruct (B Hq)].
+  - unfold live_z. cbn. rewrite Hlive. lia.
+  - intros c' Hc'. injection Hc' as <-. left. exists c. split; [exact Hc | reflexivity].
+Qed.
+
+Lemma step_Answer v s sd a s' : Inv v s -> step v s (L_Answer sd a) = Some s' -> Inv v s'.
+Proof.
+  intros I H. cbn [step] in H.
+  destruct (lookup sd (idmap s)) as [p|] eqn:Hl; injection H as <-.
+  - apply lookup_in in Hl. destruct (inv_idmap v s I sd p Hl) as [e [Hp [Hsid Hlive]]].
+    pose proof (inv_entries v s I p e Hp) as Hok. unpack_ok Hok.
+    eapply (inv_step_upd v s _ p e (fun e => add_posted a (set_senders (e_senders e ++ [(next_aid s, a)]) e)) I Hp);
+      cbn; try reflexivity; try lia; auto.
+    + ok_split; unfold_ok; cbn.
+      * exact Hshape.
+      * exact Hminfo.
+      * exact Hclient.
+      * destruct Hans as [A [B C]]. split; [|split].
+        -- intros a0 Ha0. right. apply A. exact Ha0.
+        -- intros aid a0 Hin. apply in_app_or in Hin. destruct Hin as [Hin|[Hin|[]]].
+           ++ right. eapply B. exact Hin.
+           ++ injection Hin as _ <-. left. reflexivity.
+        -- intros c a0 Hc Hx. right. eapply C; eassumption.
+      * exact Hstuck.
+    + unfold live_z. cbn. lia.
+    + intros a0 [<-|Hin]; [|left; exact Hin]. right. exists (next_aid s). left. rewrite Hsid. reflexivity.
+    + intros c' Hc'. left. exists c'. split; [exact Hc' | reflexivity].
+  - apply (inv_same_entries v s); cbn; try reflexivity; auto.
+    apply (inv_done_cids v s I).
+Qed.
+
+Lemma step_RvAnswer v s p s' : Inv v s -> step v s (L_RvAnswer p) = Some s' -> Inv v s'.
+Proof.
+  intros I H. cbn [step] in H. destruct v; [|discriminate].
+  destruct (nth_error (entries s) p) as [e|] eqn:Hp; [|discriminate].
+  destruct (e_senders e) as [|[aid a] rest] eqn:Hs; [discriminate|].
+  destruct (e_cl e) as [c|] eqn:Hc; [|discriminate].
+  destruct (c_pc c) eqn:Hpc; try discriminate.
+  injection H as <-.
+  pose proof (inv_entries V0 s I p e Hp) as Hok. unpack_ok Hok.
+  destruct (shape_client_wait e c Hshape Hc (or_introl Hpc)) as [Hh [Hlive Hw]].
+  eapply (inv_step_upd V0 s _ p e (fun e => set_senders rest (set_cl (Some (set_cpc (C_Cleanup (CAnswer a)) c)) e)) I Hp);
+    cbn; try reflexivity; try lia; auto.
+  - ok_split; unfold_ok; cbn; rewrite ?Hc, ?Hpc, ?Hs in *.
+    + exact Hshape.
+    + intros m Hm. destruct (Hminfo m Hm) as [c0 [Hc0 [A [B C]]]]. injection Hc0 as <-.
+      exists (set_cpc (C_Cleanup (CAnswer a)) c). cbn. repeat split; assumption.
+    + intros c0 Hc0. injection Hc0 as <-. cbn. apply Hclient; first [reflexivity | exact Hc].
+    + destruct Hans as [A [B C]]. split; [exact A|]. split.
+      * intros aid0 a0 Hin. eapply B. right. exact Hin.
+      * intros c0 a0 Hc0 [Hx|Hx]; injection Hc0 as <-; cbn in Hx; [|discriminate].
+        injection Hx as <-. eapply B. left. reflexivity.
+    + exact Hstuck.
+  - unfold live_z. cbn. lia.
+  - intros c' Hc'. injection Hc' as <-. left. exists c. split; [exact Hc | reflexivity].
+Qed.
+
+Lemma step_AnswerPut v s p s' : Inv v s -> step v s (L_AnswerPut p) = Some s' -> Inv v s'.
+Proof.
+  intros I H. cbn [step] in H. destruct v; [discriminate|].
+  destruct (nth_error (entries s) p) as [e|] eqn:Hp; [|discriminate].
+  destruct (e_senders e) as [|[aid a] rest] eqn:Hs; [discriminate|].
+  injection H as <-.
+  pose proof (inv_entries V1 s I p e Hp) as Hok. unpack_ok Hok.
+  set (ok := match e_buf e with None => true | Some _ => false end).
+  eapply (inv_step_upd V1 s _ p e (fun e => set_senders rest (if ok then set_buf (Some a) e else e)) I Hp);
+    cbn; try reflexivity; try lia; auto.
+  - ok_split; unfold_ok; destruct ok; cbn; rewrite ?Hs in *; try assumption.
+    + destruct Hans as [A [B C]]. split; [|split].
+      * intros a0 Ha0. injection Ha0 as <-. eapply B. left. reflexivity.
+      * intros aid0 a0 Hin. eapply B. right. exact Hin.
+      * exact C.
+    + destruct Hans as [A [B C]]. split; [exact A|]. split; [|exact C].
+      intros aid0 a0 Hin. eapply B. right. exact Hin.
+  - destruct ok; reflexivity.
+  - intros sd q Hin. split; [exact Hin|]. intros ->.
+    destruct (inv_idmap V1 s I sd p Hin) as [e0 [H0 [_ Hl]]]. rewrite Hp in H0. injection H0 as <-.
+    destruct ok; exact Hl.
+  - unfold live_z. destruct ok; cbn; lia.
+  - intros a0 Hin. left. destruct ok; exact Hin.
+  - intros c' Hc'. left. exists c'. split; [destruct ok; exact Hc' | reflexivity].
+Qed.
+
+Lemma step_CTakeAnswer v s p s' : Inv v s -> step v s (L_CTakeAnswer p) = Some s' -> Inv v s'.
+Proof.
+  intros I H. cbn [step] in H. destruct v; [discriminate|].
+  destruct (nth_error (entries s) p) as [e|] eqn:Hp; [|discriminate].
+  destruct (e_buf e) as [a|] eqn:Hb; [|discriminate].
+  destruct (e_cl e) as [c|] eqn:Hc; [|discriminate].
+  destruct (c_pc c) eqn:Hpc; try discriminate.
+  injection H as <-.
+  pose proof (inv_entries V1 s I p e Hp) as Hok. unpack_ok Hok.
+  apply (inv_step_simple V1 s p e (fun e => set_buf None (set_cl (Some (set_cpc (C_Cleanup (CAnswer a)) c)) e)) I Hp); cbn; auto.
+  - ok_split; unfold_ok; cbn; rewrite ?Hc, ?Hpc, ?Hb in *.
+    + exact Hshape.
+    + intros m Hm. destruct (Hminfo m Hm) as [c0 [Hc0 [A [B C]]]]. injection Hc0 as <-.
+      exists (set_cpc (C_Cleanup (CAnswer a)) c). cbn. repeat split; assumption.
+    + intros c0 Hc0. injection Hc0 as <-. cbn. apply Hclient; first [reflexivity | exact Hc].
+    + destruct Hans as [A [B C]]. split; [intros a0 Ha0; discriminate|]. split; [exact B|].
+      intros c0 a0 Hc0 [Hx|Hx]; injection Hc0 as <-; cbn in Hx; [|discriminate].
+      injection Hx as <-. apply A. reflexivity.
+    + exact Hstuck.
+  - intros c' Hc'. injection Hc' as <-. exists c. split; [exact Hc | reflexivity].
+Qed.
+
+Lemma step_Poll v s sd n pt cl s' : Inv v s -> step v s (L_Poll sd n pt cl) = Some s' -> Inv v s'.
+Proof.
+  intros I H. cbn [step] in H. injection H as <-.
+  destruct I as [Ie Ii Ig Ipo Ic Id].
+  assert (Hnew : forall p e, nth_error (entries s ++ [new_entry sd n pt cl]) p = Some e ->
+            nth_error (entries s) p = Some e \/ (p = length (entries s) /\ e = new_entry sd n pt cl)).
+  { intros p e Hp. destruct (Nat.lt_ge_cases p (length (entries s))) as [Hlt|Hge].
+    - left. rewrite nth_error_app1 in Hp by exact Hlt. exact Hp.
+    - right. rewrite nth_error_app2 in Hp by exact Hge.
+      destruct (p - length (entries s))%nat as [|k] eqn:Ek; cbn in Hp.
+      + injection Hp as <-. split; [lia | reflexivity].
+      + destruct k; discriminate. }
+  constructor; cbn.
+  - intros p e Hp. destruct (Hnew p e Hp) as [Hold|[-> ->]]; [apply Ie with p; exact Hold|].
+    ok_split; unfold_ok; cbn.
+    + reflexivity.
+    + intros m [Hm|Hm]; discriminate.
+    + intros c Hc; discriminate.
+    + split; [intros a Ha; discriminate|]. split; [intros aid a []|intros c a Hc; discriminate].
+    + destruct v; [split; [discriminate | reflexivity] | discriminate].
+  - intros sd' p [Hin|Hin].
+    + injection Hin as <- <-. exists (new_entry sd n pt cl). split; [|split; reflexivity].
+      rewrite nth_error_app2 by lia. rewrite Nat.sub_diag. reflexivity.
+    + apply in_remove_key in Hin. destruct Hin as [Hin _].
+      destruct (Ii sd' p Hin) as [e [Hp [Hs Hl]]]. exists e. split; [|split; assumption].
+      rewrite nth_error_app1; [exact Hp|]. apply nth_error_Some. congruence.
+  - rewrite count_live_app, Ig. cbn. lia.
+  - intros p e a Hp Ha. destruct (Hnew p e Hp) as [Hold|[-> ->]]; [eapply Ipo; eassumption|]. destruct Ha.
+  - intros p q e1 e2 c1 c2 H1 H2 Hc1 Hc2 Heq.
+    destruct (Hnew p e1 H1) as [Ho1|[-> ->]]; [|discriminate].
+    destruct (Hnew q e2 H2) as [Ho2|[-> ->]]; [|discriminate].
+    eapply Ic; eassumption.
+  - exact Id.
+Qed.
+
+(* ------------------------------------------------------------------ *)
+
+Theorem step_preserves_inv v s l s' : Inv v s -> step v s l = Some s' -> Inv v s'.
+Proof.
+  intros I H. destruct l.
+  - eapply step_Poll; eassumption.
+  - eapply step_FireW; eassumption.
+  - eapply step_WTake; eassumption.
+  - eapply step_WTimeoutCS; eassumption.
+  - eapply step_Client; eassumption.
+  - eapply step_RvOffer; eassumption.
+  - eapply step_RvForward; eassumption.
+  - eapply step_FireC; eassumption.
+  - eapply step_CTake; eassumption.
+  - eapply step_CCleanup; eassumption.
+  - eapply step_Answer; eassumption.
+  - eapply step_RvAnswer; eassumption.
+  - eapply step_AnswerPut; eassumption.
+  - eapply step_CTakeAnswer; eassumption.
+Qed.
+
+Definition reachable (v : version) (br : list (fpr * url)) (s : state) : Prop :=
+  exists ls, run v (init br) ls = Some s.
+
+Lemma run_preserves_inv v : forall ls s s', Inv v s -> run v s ls = Some s' -> Inv v s'.
+Proof.
+  induction ls as [|l ls IH]; intros s s' I H; cbn [run] in H.
+  - injection H as <-. exact I.
+  - destruct (step v s l) as [s1|] eqn:Hs; [|discriminate].
+    eapply IH; [eapply step_preserves_inv; eassumption | exact H].
+Qed.
+
+Theorem reachable_inv v br s : reachable v br s -> Inv v s.
+Proof. intros [ls H]. eapply run_preserves_inv; [apply inv_init | exact H]. Qed.
+
+Lemma run_bridges v : forall ls s s', run v s ls = Some s' -> bridges s' = bridges s.
+Proof.
+  induction ls as [|l ls IH]; intros s s' H; cbn [run] in H.
+  - injection H as <-. reflexivity.
+  - destruct (step v s l) as [s1|] eqn:Hs; [|discriminate]. rewrite (IH _ _ H).
+    destruct l; cbn [step] in Hs;
+    repeat match type of Hs with
+           | match ?x with _ => _ end = Some _ => destruct x; try discriminate
+           end; injection Hs as <-; reflexivity.
+Qed.
